@@ -1,8 +1,12 @@
 #!/bin/sh
-# usage: run_check.sh <module> [tier] [extra args]   (cwd = /verif)
-cd "$(dirname "$0")" || exit 2
-[ -x .venv/bin/python ] && .venv/bin/python -c "import z3" 2>/dev/null || ./setup.sh >/dev/null || exit 2
-export PYTHONPATH=/verif:/repo PYTHONHASHSEED=0
+# usage: run_check.sh <module> [tier] [extra args]
+# Runs checks/<module>.py from the directory this script lives in (normally /verif; a snapshot of
+# it under `vp run`) with the overlay venv /verif/.venv (built by setup.sh if missing).
+HERE="$(cd "$(dirname "$0")" && pwd)"
+cd "$HERE" || exit 2
+PY=/verif/.venv/bin/python
+[ -x "$PY" ] && "$PY" -c "import z3" 2>/dev/null || "$HERE/setup.sh" >/dev/null || exit 2
+export PYTHONPATH="$HERE:/repo" PYTHONHASHSEED=0
 m="$1"; t="${2:-quick}"
 shift; [ $# -gt 0 ] && shift
-exec .venv/bin/python -m "checks.$m" --tier "$t" "$@"
+exec "$PY" -m "checks.$m" --tier "$t" "$@"
